@@ -28,7 +28,7 @@ def header_layout(repo):
         for attr in ('header', 'format'):
             hit = c.find_attr(attr)
             if hit:
-                sv = repo.try_fold(hit[1], hit[0].module, hit[0])
+                sv = repo.try_fold(ast.Attribute(value=ast.Name(id='cls', ctx=ast.Load()), attr=attr, ctx=ast.Load()), c.module, c)
         if not isinstance(sv, StructVal):
             raise AnalysisError('pdu.%s has no header struct' % name)
         fmt = sv.fmt.replace(' ', '')
